@@ -39,7 +39,7 @@ func runL1(p *l1Profile) func(r *core.Run) *core.Violation {
 }
 
 func init() {
-	c10 := &l1Profile{Prop: "C10", Reimport: 2, Blocks: [2]int{8, 40}, MaxTx: 4, Periods: []time.Duration{time.Second, 1500 * time.Millisecond, 10 * time.Second, time.Hour}, Crash: 5,
+	c10 := &l1Profile{Prop: "C10", DepFault: 5, Reimport: 2, Blocks: [2]int{8, 40}, MaxTx: 4, Periods: []time.Duration{time.Second, 1500 * time.Millisecond, 10 * time.Second, time.Hour}, Crash: 5,
 		W:       map[string]int{"create": 10, "deposit": 60, "send": 8, "propose": 6, "claim": 8, "updProposer": 2, "params": 2, "recordBatch": 2, "multi": 6},
 		RegFee:  true,
 		NonTriv: func(w *l1World) bool { return w.succ["deposit"] >= 2 && len(w.m.Bridges) >= 1 }}
@@ -51,7 +51,7 @@ func init() {
 
 	l1Assume := []string{"outer tx signatures are not verified; the signer is the declared signer field", "single block proposer", "the L2 side is represented by fabricated withdrawal sets committed by the independent prover"}
 
-	c01 := &l1Profile{Prop: "C01", Reimport: 2, Blocks: [2]int{10, 50}, MaxTx: 5, Periods: []time.Duration{time.Second, 10 * time.Second, time.Hour}, Crash: 5, DepFault: 6, GasAbort: 4, Byz: 25, RegFee: true,
+	c01 := &l1Profile{Prop: "C01", HookPct: 25, Reimport: 2, Blocks: [2]int{10, 50}, MaxTx: 5, Periods: []time.Duration{time.Second, 10 * time.Second, time.Hour}, Crash: 5, DepFault: 6, GasAbort: 4, Byz: 25, RegFee: true,
 		W:       map[string]int{"claimburst": 8, "create": 8, "deposit": 30, "send": 10, "propose": 14, "delete": 4, "claim": 30, "updProposer": 2, "updChallenger": 2, "batchInfo": 1, "params": 1, "multi": 8},
 		NonTriv: func(w *l1World) bool { return w.succ["deposit"] >= 1 && w.succ["claim"] >= 1 && len(w.m.Bridges) >= 2 }}
 	core.Register(&core.Scenario{ID: "C01", Level: "exploration", Run: runL1(c01), Components: l1Components, Assumptions: l1Assume,
@@ -59,7 +59,7 @@ func init() {
 		QuickRuns: 3000, QuickSecs: 75, ThoroughRuns: 50000, ThoroughSecs: 700,
 		RequiredProbes: []string{"reject.claim.escrow-underfunded", "claim.perturbed-rejected"}})
 
-	c02 := &l1Profile{Prop: "C02", Reimport: 2, Blocks: [2]int{12, 60}, MaxTx: 6, Periods: []time.Duration{time.Second, 2 * time.Second, 10 * time.Second}, Crash: 10, Byz: 8,
+	c02 := &l1Profile{Prop: "C02", GasAbort: 4, Reimport: 2, Blocks: [2]int{12, 60}, MaxTx: 6, Periods: []time.Duration{time.Second, 2 * time.Second, 10 * time.Second}, Crash: 10, Byz: 8,
 		W:       map[string]int{"claimburst": 12, "create": 4, "deposit": 14, "propose": 16, "delete": 8, "claim": 60, "updProposer": 1, "multi": 5, "send": 4},
 		NonTriv: func(w *l1World) bool { return w.succ["claim"] >= 2 }}
 	core.Register(&core.Scenario{ID: "C02", Level: "exploration", Run: runL1(c02), Components: l1Components, Assumptions: l1Assume,
@@ -75,7 +75,7 @@ func init() {
 		QuickRuns: 3000, QuickSecs: 75, ThoroughRuns: 50000, ThoroughSecs: 700,
 		RequiredProbes: []string{"reject.claim.proof-mismatch", "reject.claim.output-root-mismatch", "claim.perturbed-but-valid"}})
 
-	c05 := &l1Profile{Prop: "C05", Reimport: 2, Blocks: [2]int{15, 70}, MaxTx: 4, Crash: 5, Byz: 5, BadCfg: 20,
+	c05 := &l1Profile{Prop: "C05", GasAbort: 3, Reimport: 2, Blocks: [2]int{15, 70}, MaxTx: 4, Crash: 5, Byz: 5, BadCfg: 20,
 		Periods: []time.Duration{1, 999 * time.Millisecond, time.Second, 1500 * time.Millisecond, 10 * time.Second, time.Hour, 7 * 24 * time.Hour, 1<<63 - 1},
 		W:       map[string]int{"burst": 5, "create": 8, "deposit": 10, "propose": 25, "delete": 20, "claim": 35, "updProposer": 3, "updChallenger": 3, "batchInfo": 3, "metadata": 2, "oracleCfg": 1, "multi": 5},
 		NonTriv: func(w *l1World) bool { return w.succ["claim"] >= 1 && w.succ["delete"] >= 1 }}
@@ -84,7 +84,7 @@ func init() {
 		QuickRuns: 3000, QuickSecs: 75, ThoroughRuns: 50000, ThoroughSecs: 700,
 		RequiredProbes: []string{"reject.claim.not-final", "reject.delete.final-output", "time.boundary-targeted", "finality.band-observed"}})
 
-	c11 := &l1Profile{Prop: "C11", Reimport: 2, Blocks: [2]int{15, 70}, MaxTx: 5, Crash: 5, Periods: []time.Duration{time.Second, 5 * time.Second, time.Hour},
+	c11 := &l1Profile{Prop: "C11", GasAbort: 4, Reimport: 2, Blocks: [2]int{15, 70}, MaxTx: 5, Crash: 5, Periods: []time.Duration{time.Second, 5 * time.Second, time.Hour},
 		W:       map[string]int{"burst": 8, "create": 8, "deposit": 4, "propose": 50, "delete": 30, "claim": 8, "updProposer": 3, "updChallenger": 3, "batchInfo": 3, "multi": 6},
 		NonTriv: func(w *l1World) bool { return w.succ["propose"] >= 3 && w.succ["delete"] >= 1 }}
 	core.Register(&core.Scenario{ID: "C11", Level: "exploration", Run: runL1(c11), Components: l1Components, Assumptions: l1Assume,
